@@ -591,6 +591,7 @@ class StmtMixin:
         d = dst(*bvars)
         self.fact(z3.ForAll(bvars, z3.Implies(cond, z3.And([0 <= d, d < cnt] + [srcs[k](d) == bvars[k]
                                                                                 for k in range(m)]))))
+        self.laws.append(dict(arrs=[a.get_id() for a in new_arrs], terms=new_arrs, srcs=srcs, base=base_len, m=m))
         if extend:
             j = z3.Int('j')
             for na, oa in zip(new_arrs, old_arrs):
